@@ -464,6 +464,85 @@ def fam_negotiation():
         note='plain enumeration of a finite set'))
 
 
+def fam_parameter_names():
+    """the names of the per-group query parameters of GET
+    /allocation_candidates: the language each schema pattern (and the parser's
+    own pattern) lets through is included in the documented one - decided by
+    z3 on the regular expressions read from the code; a witness outside it is
+    sent to the real service, which must refuse it"""
+    import urllib.parse
+    from engine import rex
+    from placement.schemas import allocation_candidate as acs
+    from placement import lib as plib
+
+    def spec(prefix, wide):
+        R = z3.Re
+        if wide:
+            ch = z3.Union(z3.Range('a', 'z'), z3.Range('A', 'Z'),
+                          z3.Range('0', '9'), R('_'), R('-'))
+            suffix = z3.Loop(ch, 1, 64)
+        else:
+            suffix = z3.Concat(z3.Range('1', '9'),
+                               z3.Star(z3.Range('0', '9')))
+        return z3.Concat(R(prefix), z3.Option(suffix))
+
+    def path(ctx):
+        app.setup()
+        cases = []
+        for name in sorted(dir(acs)):
+            sch = getattr(acs, name)
+            if name.startswith('GET_SCHEMA') and isinstance(sch, dict):
+                m = tuple(int(x) for x in name.split('_')[2:4])
+                for pat in sorted(sch.get('patternProperties', {})):
+                    cases.append(('schema %s' % name, pat, m))
+        cases.append(('lib._QS_KEY_PATTERN', plib._QS_KEY_PATTERN.pattern,
+                      (1, 25)))
+        cases.append(('lib._QS_KEY_PATTERN_1_33',
+                      plib._QS_KEY_PATTERN_1_33.pattern, (1, 33)))
+        prefixes = ('resources', 'required', 'member_of', 'in_tree')
+        with world(ctx) as w:
+            for what, pat, m in cases:
+                wide = m >= (1, 33)
+                doc = z3.Union(*[spec(p_, wide) for p_ in prefixes])
+                ctx.data['obligations'] = ctx.data.get('obligations', 0) + 1
+                r, wit = rex.included(rex.search_language(pat), doc,
+                                      max_len=80)
+                ctx.nq += 1
+                if r == 'unsat':
+                    ctx.data['discharged'] = ctx.data.get('discharged', 0) + 1
+                    continue
+                if r == 'unknown':
+                    ctx.data.setdefault('violations', []).append(dict(
+                        clause='parameter-name-language', kind='unknown',
+                        values=None, desc='regex inclusion undecided',
+                        sig=what))
+                    continue
+                key = rex.unescape(wit)
+                resp = app.call(
+                    'GET', '/allocation_candidates?%s=%s&resources=VCPU:1'
+                    % (urllib.parse.quote(key, safe=''),
+                       'VCPU:1' if key.startswith('resources') else
+                       'CUSTOM_T1' if key.startswith('required') else
+                       AGG(1) if key.startswith('member_of') else U(1)),
+                    version='%d.%d' % m)
+                if resp.status == 200:
+                    runner.violation(
+                        ctx, 'parameter-name-language',
+                        '%s (pattern %r) lets the undocumented parameter '
+                        'name %r through and the service answers 200 at '
+                        '%d.%d' % (what, pat, key, m[0], m[1]),
+                        sig=what.split()[0])
+                else:
+                    # the pattern is wider than documented but another layer
+                    # refuses the name
+                    ctx.data['discharged'] = ctx.data.get('discharged', 0) + 1
+            return finish(ctx, 'names')
+    return Family('query-parameter-names', path, conformance=False,
+                  bounds=dict(patterns='every patternProperties key of every '
+                              'GET_SCHEMA_* of allocation candidates and the '
+                              'two parser patterns', max_len=80))
+
+
 def fam_version_header():
     """every response to a request whose version was accepted - success,
     client error, unrouted path, undeclared method - names exactly the
@@ -519,7 +598,8 @@ def families(tier):
     n = len(FEATURES)
     step = 18
     return [fam_features(i, min(n, i + step)) for i in range(0, n, step)] + \
-        [fam_routes(), fam_negotiation(), fam_version_header()]
+        [fam_routes(), fam_negotiation(), fam_version_header(),
+         fam_parameter_names()]
 
 
 if __name__ == '__main__':
